@@ -242,8 +242,8 @@ def hash_eq(ctx):
             if eq is None:
                 continue
         n += 1
-        ha = _self_attrs(hs)
-        ea = _self_attrs(eq)
+        ha = _self_attrs_deep(ci, hs)
+        ea = _self_attrs_deep(ci, eq)
         # eq may delegate to super().__eq__
         if any(unparse(c.func) == 'super().__eq__' for c in Q.calls(eq)):
             for b in ci.mro()[1:]:
@@ -271,6 +271,28 @@ def hash_eq(ctx):
     ok = 'type(self) is not type(rhs)' in unparse(bp.methods['__eq__'])
     ctx.ob(R, 'BasePath.__eq__|type-checked', ok, bp.methods['__eq__'],
            'paths of different flavours compare equal')
+
+
+def _self_attrs_deep(ci, fn, depth=0, seen=None):
+    """Attributes of self read by fn, including those read by the methods
+    it calls on self (self.to_json(), self._key(), properties)."""
+    seen = set() if seen is None else seen
+    out = set(_self_attrs(fn))
+    if depth >= 3:
+        return out
+    for n in ast.walk(fn):
+        if isinstance(n, ast.Attribute) and isinstance(
+                n.value, ast.Name) and n.value.id == 'self':
+            o, m = ci.find_method(n.attr)
+            if m is not None and m is not fn and id(m) not in seen and \
+                    not n.attr.startswith('__') or (
+                        m is not None and m is not fn and id(m) not in seen
+                        and n.attr.startswith('__') and
+                        not n.attr.endswith('__')):
+                seen.add(id(m))
+                out.discard(n.attr)
+                out |= _self_attrs_deep(ci, m, depth + 1, seen)
+    return out
 
 
 def _self_attrs(fn):
